@@ -221,7 +221,7 @@ func (s *sim) header(id string) {
 	fmt.Fprintf(out, "CASE\t%s\t%s\n", id, s.cfg.spec())
 	fmt.Fprintf(out, "NS\t%d\n", s.lat.VNumSlots())
 	for k := range s.kb {
-		fmt.Fprintf(out, "SF\t%d\t%d\n", k, s.lat.VSlotID(s.kb[k]))
+		fmt.Fprintf(out, "SF\t%d\t%d\t%x\n", k, s.lat.VSlotID(s.kb[k]), s.kb[k])
 	}
 	for i, t := range s.cfg.txns {
 		fmt.Fprintf(out, "T\t%d\t%d\t%d\t%s\t=>\t%s\t%s\n", i, t.start, t.commit, ints(t.keys), ints(s.lkeys[i]), ints(s.locks[i].VSlots()))
